@@ -67,7 +67,9 @@ MODEL_KEYS = [("ns1", "a"), ("ns1", "a - b"), ("ns2", "a"), ("ns3", "c"), ("ns4"
 CROSS_KEYS = [(ns, nm) for ns in NAMESPACES for nm in NAMES if (ns, nm) not in MODEL_KEYS]
 # keys that differ from a stored model's only in letter case: other keys (namespaces and names are compared as given)
 CASE_KEYS = [("NS1", "a"), ("ns1", "A"), ("NS3/", "a-b")]
-REMOVE_KEYS = MODEL_KEYS + CROSS_KEYS + CASE_KEYS + [("nsX", "x")]
+# keys that differ from a stored model's only by white space at an end: other keys as well (nothing is trimmed)
+PADDED_KEYS = [(" ns1", "a"), ("ns2", "a "), ("ns1\n", "a - b")]
+REMOVE_KEYS = MODEL_KEYS + CROSS_KEYS + CASE_KEYS + PADDED_KEYS + [("nsX", "x")]
 EVAL_NAMES = NAMES + ["ns2", "x", "a -b"]      # "a -b": a third spelling of the same FEEL name, which no model has
 
 
